@@ -25,10 +25,19 @@ CTYPES_C = {
 }
 
 
+C_SIGNED = {'__s8': True, '__s16': True, '__s32': True, '__s64': True, 'int': True,
+            '__u8': False, '__u16': False, '__u32': False, '__u64': False, '__be16': False, '__be32': False, '__be64': False,
+            '__le16': False, 'unsigned int': False, 'unsigned char': False, '__kernel_uid32_t': False, '__aligned_u64': False}
+PY_SIGNED = {'c_byte': True, 'c_int16': True, 'c_int32': True, 'c_int': True, 'c_int64': True, 'c_short': True, 'c_long': True,
+             'c_ubyte': False, 'c_uint8': False, 'c_uint16': False, 'c_ushort': False, 'c_uint32': False, 'c_uint': False,
+             'c_uint64': False}
+
+
 class CField:
-    def __init__(self, name, size, align, order, offset, count=None, struct=None):
+    def __init__(self, name, size, align, order, offset, count=None, struct=None, signed=None):
         self.name, self.size, self.align, self.order, self.offset, self.count, self.struct = \
             name, size, align, order, offset, count, struct
+        self.signed = signed        # True / False / None (not an integer scalar, or unknown)
 
     def __repr__(self):
         return '%s@%d+%d%s' % (self.name, self.offset, self.size, self.order)
@@ -174,7 +183,7 @@ class Headers:
                         raise AnalysisError('UAPI reader: unknown array bound %s in struct %s' % (cnt, name))
                 size = size * count
             off = (off + al - 1) // al * al
-            fields.append(CField(fname, size, al, order, off, count, st))
+            fields.append(CField(fname, size, al, order, off, count, st, C_SIGNED.get(ty) if st is None else None))
             off += size
             maxal = max(maxal, al)
         total = (off + maxal - 1) // maxal * maxal
@@ -207,7 +216,12 @@ def py_layout(prog, cls, _depth=0):
         fname, te = el.elts[0].value, el.elts[1]
         size, al, order, count, st = _py_type(prog, cls, te, big, _depth)
         off = (off + al - 1) // al * al
-        fields.append(CField(fname, size, al, order, off, count, st))
+        base = te
+        while isinstance(base, ast.BinOp):
+            base = base.left
+        while isinstance(base, ast.Attribute) and base.attr in ('__ctype_be__', '__ctype_le__'):
+            base = base.value
+        fields.append(CField(fname, size, al, order, off, count, st, PY_SIGNED.get(base.id) if isinstance(base, ast.Name) else None))
         off += size
         maxal = max(maxal, al)
     total = (off + maxal - 1) // maxal * maxal
